@@ -5,6 +5,10 @@
 // Each token is the argument of one Add call in hex ("-" = the empty word).  Probes are all
 // strings over the alphabet of length <= n (by length, then in alphabet order) followed by the
 // extra probes p.  z=1 starts from the zero Builder (no Initialise call).
+// Optional history of the Builder object before the Add sequence (the model ignores it: by the
+// documentation of Initialise a re-initialised Builder is a fresh one): h=1 Initialise called
+// again (twice); h=2 the words q are added, Finish, Initialise; h=3 the words q are added (no
+// Finish), Initialise; h=4 as h=2 and the first Dawg is kept and must not change.
 package main
 
 import (
@@ -44,6 +48,8 @@ type tcase struct {
 	zero   bool
 	extra  [][]byte
 	tokens [][]byte
+	hist   int
+	pre    [][]byte
 }
 
 func (c tcase) line() string {
@@ -59,7 +65,15 @@ func (c tcase) line() string {
 	if c.zero {
 		z = 1
 	}
-	return fmt.Sprintf("a=%s,n=%d,z=%d,p=%s;%s", hex.EncodeToString(c.alpha), c.plen, z, strings.Join(ex, "."), strings.Join(tk, " "))
+	h := ""
+	if c.hist != 0 {
+		q := make([]string, len(c.pre))
+		for i, w := range c.pre {
+			q[i] = hexWord(w)
+		}
+		h = fmt.Sprintf(",h=%d,q=%s", c.hist, strings.Join(q, "."))
+	}
+	return fmt.Sprintf("a=%s,n=%d,z=%d,p=%s%s;%s", hex.EncodeToString(c.alpha), c.plen, z, strings.Join(ex, "."), h, strings.Join(tk, " "))
 }
 
 func parse(line string) tcase {
@@ -82,6 +96,14 @@ func parse(line string) tcase {
 			for _, p := range strings.Split(v, ".") {
 				if p != "" {
 					c.extra = append(c.extra, unhex(p))
+				}
+			}
+		case "h":
+			c.hist, _ = strconv.Atoi(v)
+		case "q":
+			for _, p := range strings.Split(v, ".") {
+				if p != "" {
+					c.pre = append(c.pre, unhex(p))
 				}
 			}
 		}
@@ -234,6 +256,27 @@ func exec(line string) hx.Result {
 	if !c.zero {
 		db.Initialise()
 	}
+	// the past of the Builder object
+	var first *dawg.Dawg
+	var firstDump string
+	switch c.hist {
+	case 1:
+		db.Initialise()
+		db.Initialise()
+	case 2, 3, 4:
+		for _, w := range c.pre {
+			db.Add(append([]byte{}, w...))
+		}
+		if c.hist != 3 {
+			f, err := db.Finish()
+			if err != nil || f == nil {
+				viol = append(viol, hx.Fail("C12:history-finish", "Finish of the first build failed: %v", err))
+			} else if c.hist == 4 {
+				first, firstDump = f, dumpString(f, true)
+			}
+		}
+		db.Initialise()
+	}
 	var acc strings.Builder
 	var accepted [][]byte
 	for _, w := range c.tokens {
@@ -260,6 +303,9 @@ func exec(line string) hx.Result {
 		if bytes.Compare(accepted[i-1], accepted[i]) >= 0 {
 			viol = append(viol, hx.Fail("C12:accepted-out-of-order", "Add accepted %x after %x", accepted[i], accepted[i-1]))
 		}
+	}
+	if first != nil && dumpString(first, true) != firstDump {
+		viol = append(viol, hx.Fail("C12:history-first-dawg-changed", "the automaton of the first build changed while the re-initialised Builder built the second"))
 	}
 	words, ids := d.Search()
 	ws := make([]string, len(words))
@@ -358,7 +404,7 @@ func exec(line string) hx.Result {
 	}
 	return hx.Result{Obs: obs, Nontrivial: nodes < npre || properPrefix, Viol: viol,
 		Buckets: []string{fmt.Sprintf("words<=%d", bucket(len(accepted))), fmt.Sprintf("alphabet<=%d", bucket(alphabetSize(accepted))),
-			fmt.Sprintf("branch<=%d", bucket(maxBranch)), fmt.Sprintf("rejected<=%d", bucket(rej)), fmt.Sprintf("depth<=%d", bucket(depth)), fmt.Sprintf("nodes<=%d", bucket(nodes))}}
+			fmt.Sprintf("branch<=%d", bucket(maxBranch)), fmt.Sprintf("rejected<=%d", bucket(rej)), fmt.Sprintf("depth<=%d", bucket(depth)), fmt.Sprintf("nodes<=%d", bucket(nodes)), fmt.Sprintf("history=%d", c.hist)}}
 }
 
 func joinU64(a []uint64) string {
@@ -585,6 +631,21 @@ func gen(g *hx.Gen) {
 		tw = append(tw, []byte(s))
 	}
 	emit(tcase{alpha: []byte("abl"), plen: 3, tokens: tw, extra: [][]byte{[]byte("ab"), []byte("hello"), []byte("abjection"), []byte("ablations")}})
+	// Builders with a past: every history kind x small first lives x small second lists
+	lists := [][][]byte{{}, {{}}, {{}, []byte("a")}, {[]byte("a")}, {[]byte("a"), []byte("b")}, {[]byte("b")}, {[]byte("a"), {}}}
+	for h := 1; h <= 4; h++ {
+		for _, pre := range lists {
+			if h == 1 && len(pre) > 0 {
+				continue
+			}
+			for _, toks := range lists {
+				for z := 0; z < 2; z++ {
+					emit(tcase{alpha: ab, plen: 2, zero: z == 1, hist: h, pre: pre, tokens: toks})
+				}
+			}
+		}
+	}
+	g.Exhaustive("Builder histories (Initialise twice; build + Finish + Initialise; Adds + Initialise; the same keeping the first Dawg) x 7 first lives x 7 Add sequences over {\"\", a, b} x zero/initialised Builder")
 	// exhaustive: every subset of the 15 words of length <= 3 over {a,b}
 	all := sortDedup(allProbes(ab, 3))
 	subset := func(mask int) [][]byte {
@@ -628,7 +689,11 @@ func gen(g *hx.Gen) {
 			toks = withBadAdds(r, ws, alpha)
 		}
 		pa, pn := probeAlphabet(alpha)
-		emit(tcase{alpha: pa, plen: pn, zero: r.Chance(1, 3), extra: extraProbes(r, ws, alpha), tokens: toks})
+		c := tcase{alpha: pa, plen: pn, zero: r.Chance(1, 3), extra: extraProbes(r, ws, alpha), tokens: toks}
+		if r.Chance(1, 4) {
+			c = withHistory(r, c, ws, alpha)
+		}
+		emit(c)
 	}
 	// wide branching over the full byte alphabet and larger sets
 	big := g.Pick(40, 600)
@@ -1103,6 +1168,48 @@ func gridWords(r *hx.Rng, alpha []byte, K, nl, maxWords int) [][]byte {
 	return sortDedup(ws)
 }
 
+// withHistory gives the case a Builder with a past: the words of an earlier (complete or
+// abandoned) build chosen relative to the new list -- its own words, its first or last word,
+// the empty word, a word above everything, an unrelated set.
+func withHistory(r *hx.Rng, c tcase, ws [][]byte, alpha []byte) tcase {
+	c.hist = []int{1, 2, 2, 3, 3, 4}[r.Intn(6)]
+	if c.hist == 1 {
+		return c
+	}
+	switch r.Intn(7) {
+	case 0:
+		c.pre = [][]byte{{}}
+	case 1:
+		c.pre = [][]byte{{0xff, 0xff, 0xff, 0xff, 0xff, 0xff, 0xff, 0xff}}
+	case 2:
+		if len(ws) > 0 {
+			c.pre = [][]byte{ws[len(ws)-1]}
+		} else {
+			c.pre = [][]byte{alpha[:1]}
+		}
+	case 3:
+		if len(ws) > 0 {
+			c.pre = [][]byte{ws[0]}
+		} else {
+			c.pre = [][]byte{{}, alpha[:1]}
+		}
+	case 4:
+		c.pre = ws
+		if len(c.pre) > 40 {
+			c.pre = c.pre[len(c.pre)-40:]
+		}
+	case 5:
+		c.pre = [][]byte{{}, alpha[:1], cat(alpha[:1], alpha[len(alpha)-1:])}
+	default:
+		pre := wordSet(r, alpha)
+		if r.Bool() {
+			pre = withBadAdds(r, pre, alpha)
+		}
+		c.pre = pre
+	}
+	return c
+}
+
 func genRound3(g *hx.Gen, emit func(tcase)) {
 	r := g.Rng
 	finish := func(ws [][]byte, alpha []byte, bad bool) {
@@ -1125,7 +1232,11 @@ func genRound3(g *hx.Gen, emit func(tcase)) {
 				break
 			}
 		}
-		emit(tcase{alpha: pa, plen: pn, zero: r.Chance(1, 3), extra: ex, tokens: toks})
+		c := tcase{alpha: pa, plen: pn, zero: r.Chance(1, 3), extra: ex, tokens: toks}
+		if r.Chance(1, 5) {
+			c = withHistory(r, c, ws, alpha)
+		}
+		emit(c)
 	}
 	// hundreds of words over alphabets from the whole byte range
 	for round := g.Pick(2, 24); round > 0; round-- {
@@ -1170,7 +1281,7 @@ func genRound3(g *hx.Gen, emit func(tcase)) {
 
 func main() {
 	hx.Main(hx.Prop{
-		Rule:        "case = a sequence of Builder.Add arguments (sorted word set with out-of-order/duplicate insertions interleaved) plus probe strings; non-trivial = the built automaton shares a node (node count < number of distinct prefixes) or some word is a proper prefix of another; distinct by case text",
+		Rule:        "case = a sequence of Builder.Add arguments (sorted word set with out-of-order/duplicate insertions interleaved) on a fresh, zero-value or re-initialised (after a complete or abandoned build) Builder, plus probe strings; non-trivial = the built automaton shares a node (node count < number of distinct prefixes) or some word is a proper prefix of another; distinct by case text",
 		Gen:         gen,
 		Exec:        exec,
 		CaseTimeout: 20 * time.Second,
